@@ -66,7 +66,7 @@ type jCmd struct {
 type xerr struct{ msg string }
 
 func fail(fset *token.FileSet, n ast.Node, format string, a ...any) {
-	pos := fset.Position(n.Pos())
+	pos := fset.Position(posOf(n))
 	panic(xerr{fmt.Sprintf("%s:%d: %s", pos.Filename, pos.Line, fmt.Sprintf(format, a...))})
 }
 
@@ -92,6 +92,8 @@ func smbCommands(repo string) (string, any, error) {
 	fset := token.NewFileSet()
 	var cmds []jCmd
 	var err error
+	var parsed []*ast.File
+	var bases []string
 	func() {
 		defer func() {
 			if r := recover(); r != nil {
@@ -113,7 +115,13 @@ func smbCommands(repo string) (string, any, error) {
 			if perr != nil {
 				panic(xerr{perr.Error()})
 			}
-			cmds = append(cmds, extractFile(fset, af, base)...)
+			parsed = append(parsed, af)
+			bases = append(bases, base)
+		}
+		// source normalisation (smb_normalise.go) needs the package-level constants and helpers of every file
+		theNormaliser = newNormaliser(fset, repo, parsed)
+		for i, af := range parsed {
+			cmds = append(cmds, extractFile(fset, af, bases[i])...)
 		}
 	}()
 	if err != nil {
@@ -327,8 +335,10 @@ func subTypeName(t string) string {
 	return t
 }
 
+var theNormaliser *normaliser
+
 func extractMarshal(fset *token.FileSet, fd *ast.FuncDecl, c *jCmd) []jStmt {
-	stmts := fd.Body.List
+	stmts := theNormaliser.normMarshal(fd, c)
 	i := 0
 	expect := func(want string) {
 		if i >= len(stmts) {
@@ -379,7 +389,7 @@ func marshalBody(fset *token.FileSet, stmts []ast.Stmt, c *jCmd, vars map[string
 	for i := 0; i < len(stmts); i++ {
 		st := stmts[i]
 		s := src(fset, st)
-		line := fset.Position(st.Pos()).Line
+		line := fset.Position(posOf(st)).Line
 		if s == `rawDataContent := []byte{}` || s == `rawParametersContent := []byte{}` {
 			// declaration of a raw stream (the compiler guarantees it precedes every use and is unique)
 			continue
@@ -507,7 +517,7 @@ func marshalBody(fset *token.FileSet, stmts []ast.Stmt, c *jCmd, vars map[string
 }
 
 func marshalRange(fset *token.FileSet, n *ast.RangeStmt, c *jCmd, vars map[string]*mvar) jStmt {
-	line := fset.Position(n.Pos()).Line
+	line := fset.Position(posOf(n)).Line
 	x := src(fset, n.X)
 	if !strings.HasPrefix(x, "c.") {
 		fail(fset, n, "range over %s", x)
@@ -569,7 +579,7 @@ func marshalRange(fset *token.FileSet, n *ast.RangeStmt, c *jCmd, vars map[strin
 }
 
 func marshalIf(fset *token.FileSet, n *ast.IfStmt, c *jCmd, vars map[string]*mvar) jStmt {
-	line := fset.Position(n.Pos()).Line
+	line := fset.Position(posOf(n)).Line
 	if n.Else != nil || n.Init != nil {
 		fail(fset, n, "if with else/init in Marshal")
 	}
@@ -592,7 +602,7 @@ func marshalIf(fset *token.FileSet, n *ast.IfStmt, c *jCmd, vars map[string]*mva
 // Unmarshal
 
 func extractUnmarshal(fset *token.FileSet, fd *ast.FuncDecl, c *jCmd) []jStmt {
-	stmts := fd.Body.List
+	stmts := theNormaliser.normUnmarshal(fd, c)
 	if len(fd.Type.Params.List) != 1 || len(fd.Type.Params.List[0].Names) != 1 {
 		fail(fset, fd, "Unmarshal signature")
 	}
@@ -701,7 +711,7 @@ func unmarshalBody(fset *token.FileSet, stmts []ast.Stmt, c *jCmd) []jStmt {
 	for i := 0; i < len(stmts); i++ {
 		st := stmts[i]
 		s := src(fset, st)
-		line := fset.Position(st.Pos()).Line
+		line := fset.Position(posOf(st)).Line
 		add := func(j jStmt) { j.Line = line; out = append(out, j) }
 		switch s {
 		case `offset = 0`:
@@ -915,7 +925,7 @@ func unmarshalAndX(fset *token.FileSet, stmts []ast.Stmt, c *jCmd) []jStmt {
 	for i := 0; i < len(stmts); i++ {
 		st := stmts[i]
 		s := src(fset, st)
-		line := fset.Position(st.Pos()).Line
+		line := fset.Position(posOf(st)).Line
 		if s == `if c.GetAndX() == nil { c.SetAndX(andx.NewAndX()) }` {
 			if i+2 < len(stmts) && src(fset, stmts[i+1]) == `_, err = c.GetAndX().Unmarshal(rawParametersContent)` &&
 				(src(fset, stmts[i+2]) == `if err != nil { return 0, err }` || src(fset, stmts[i+2]) == `if err != nil { return offset, err }`) {
